@@ -13,6 +13,7 @@ EXPLANATION = (
     "paths stays constructible; (R5) chain-link fields of a provenance entry are compared on append; (R6) the parents "
     "recorded for a local commit come from the worldline tip read in the same scheduler pass. That every single-field "
     "alteration is detected is NOT decided (collision resistance assumed)."
+    ' Round 2: for every gate row the rejection RELATION (==, !=, <, ..) is the confirmed one and no new value test decides whether the gate runs (guard strength).'
 )
 ASSUMPTIONS = ["BLAKE3 collision resistance", "the patch digest coverage is decided in C04.R4"]
 FLOOR = 70
